@@ -277,6 +277,22 @@ struct DC14
 	static void expect(ArgPack & p, int, int eid, int val) { p.push(eid); p.push(val); }
 };
 
+// exclude-event form, the getEvent policy derives the event from a LATER argument - one the prototype takes by value and that
+// is movable: the event must be obtained before that argument is handed on (g++ evaluates call arguments right to left)
+struct PolGetEventLaterMov { static std::string getEvent(int, const EvMov & e, int) { return e.name; } typedef eventpp::ArgumentPassingExcludeEvent ArgumentPassingMode; };
+struct DC16
+{
+	typedef eventpp::EventDispatcher<std::string, void(EvMov, int), PolGetEventLaterMov> D;
+	static const char * name() { return "ED<std::string,void(EvMov,int)> exclude-event form, getEvent reads the by-value movable SECOND argument"; }
+	static std::string key(int k) { return KS(k); }
+	static void dispatch(D & d, int k, int eid, int val, uint32_t form) {
+		if(form == 0) { int token = 7; EvMov e(KS(k), eid); int v = val; d.dispatch(token, e, v); }
+		else if(form == 1) { const int token = 7; const EvMov e(KS(k), eid); const int v = val; d.dispatch(token, e, v); }
+		else d.dispatch(7, EvMov(KS(k), eid), int(val));
+	}
+	static void expect(ArgPack & p, int k, int eid, int val) { p.push(fpOf(KS(k)) * 31 + eid); p.push(val); }
+};
+
 // custom mixins (not the forwarding template eventpp::MixinFilter): ordinary member functions, one takes the by-value prototype
 // arguments BY VALUE (must not consume what the listeners get), one takes them by non-const reference and changes one (must be
 // called exactly once per dispatch, and the listeners must see the change)
@@ -639,9 +655,9 @@ template <bool Enabled, typename Cfg>
 static typename std::enable_if<! Enabled>::type runCfgIf(const DMode &, Rng &, uint64_t, int) {}
 static void skipCase() { --ctx().casesRun; }
 
-enum { NCFG = 16 }; // configuration n is enabled by mask bit n (n < 15) or n + 1 (bit 15 is the C20 family)
+enum { NCFG = 17 }; // configuration n is enabled by mask bit n (n < 15) or n + 1 (bit 15 is the C20 family)
 #ifndef VF_CFG_MASK
-#define VF_CFG_MASK 0x17fff
+#define VF_CFG_MASK 0x37fff
 #endif
 // C20: the same program under a family that differs only in policies (threading, map kind, callback storage, argument passing mode)
 #if (VF_CFG_MASK >> 15) & 1
@@ -722,6 +738,7 @@ static void runCase(uint64_t caseNo, Rng & rng)
 	switch(cfg) {
 	VF_CFG(0) VF_CFG(1) VF_CFG(2) VF_CFG(3) VF_CFG(4) VF_CFG(5) VF_CFG(6) VF_CFG(7) VF_CFG(8) VF_CFG(9) VF_CFG(10) VF_CFG(11) VF_CFG(12) VF_CFG(13) VF_CFG(14)
 	case 15: if((VF_CFG_MASK >> 16) & 1) { runCfgIf<((VF_CFG_MASK >> 16) & 1) != 0, DC15>(mode, rng, caseNo, 15); } else { skipCase(); } break;
+	case 16: if((VF_CFG_MASK >> 17) & 1) { runCfgIf<((VF_CFG_MASK >> 17) & 1) != 0, DC16>(mode, rng, caseNo, 16); } else { skipCase(); } break;
 	default: skipCase(); break;
 	}
 }
